@@ -33,6 +33,9 @@ func levelAModels(thorough bool) []sysCfg {
 		{Name: "2c-1i-f0", MaxCtr: 2, Cap: 1, Types: "A", Prios: "12", Events: user, Budget: 0, Depth: 10},
 		// two containers, two instance types, two instances; crash / restart / hold / drain, one fault
 		{Name: "2c-2i-f1", MaxCtr: 2, Cap: 2, Types: "AB", Prios: "1", Events: "cancel crash restart hold drain", Budget: 1, Depth: 8},
+		// two idle instances, probes every third tick, cloud list every seventh: a start command that reaches the VM late
+		// overlapping a probe whose answer is late (two late messages)
+		{Name: "1c-pre2-late2", MaxCtr: 1, Cap: 2, Types: "A", Prios: "1", PreInst: "AA", Events: "slow-req-detach slow-list slow-detach", Budget: 2, Depth: 12, ProbeTicks: 3, SyncTicks: 7},
 	}
 	if thorough {
 		ms = []sysCfg{
